@@ -81,6 +81,9 @@ func ParseRetentionDef(retentionDef string) (*Retention, error) {
 	if err != nil {
 		return nil, fmt.Errorf("Failed to parse points: %v", err)
 	}
+	if precision == 0 {
+		return nil, fmt.Errorf("Precision cannot be 0 in retentionDef [%v]", retentionDef)
+	}
 	points /= precision
 
 	return &Retention{precision, points}, err
